@@ -40,6 +40,14 @@ def r1_r2(cx):
     site = "%s %s" % (acc.sp, ls.path)
     # quantum local: second argument of accept
     wt = canon(acc.args[1].place.l)
+    # ... which must be the poll quantum itself: accept(0) means "block until a connection arrives" (no select()), so a timeout
+    # that is computed down towards zero (`quantum.min(countdown)`, a subtraction) turns the last poll of a period into an endless wait
+    shrunk = [o for k, o in Slice(ls, du).origins(acc.args[1]) if k == "call" and not o.callee.indirect and o.callee.name in ("min", "saturating_sub", "checked_sub", "wrapping_sub", "clamp")] + \
+             [o for k, o in Slice(ls, du).origins(acc.args[1]) if k == "bin" and str(o.op).startswith("Sub")]
+    cx.check(not shrunk, "C15.R2", "varlink:listen:accept-timeout-is-the-quantum", site,
+             "the timeout handed to accept() is computed with %s: it can become 0, and accept(0) blocks without polling — with a stop flag and no idle timeout listen() never looks at the flag again" % (sorted({getattr(o, "callee", None).name if hasattr(o, "callee") else str(o.op) for o in shrunk})),
+             note_ok="accept(quantum): the configured poll interval or the idle budget, unmodified")
+    if shrunk: return
     # Timeout arm
     ti = variant_index(cx, "varlink", "error::ErrorKind", "Timeout")
     tedge = None
@@ -48,6 +56,24 @@ def r1_r2(cx):
         c = switch_cond(ls, du, b.term)
         if c.kind == "discr" and any(k == "call" and o.callee.name == "kind" for k, o in sl.origins(c.place)):
             tedge = variant_edge(b.term, ti)
+        if c.kind == "call" and c.term.callee.name in ("eq", "ne") and len(c.term.args) == 2:
+            # `*e.kind() == ErrorKind::Timeout`
+            a0, a1 = c.term.args
+            for x, y in ((a0, a1), (a1, a0)):
+                if any(k == "call" and o.callee.name == "kind" for k, o in sl.origins(x)):
+                    is_to = False
+                    for k, o in sl.origins(y, follow_agg=False):
+                        if k == "agg" and isinstance(o.agg, dict) and o.agg.get("variant") == "Timeout": is_to = True
+                        if k == "const":
+                            from vlib.facts import promoted_body
+                            dbg = str((o.const or {}).get("dbg", "") or "")
+                            if "Timeout" in str((o.const or {}).get("val", "")): is_to = True
+                            if "promoted[" in dbg:
+                                pb = promoted_body(ls, dbg)
+                                if pb is not None and any(st.kind == "assign" and ((st.rv == "agg" and isinstance(st.agg, dict) and st.agg.get("variant") == "Timeout") or any(oo.is_const and "Timeout" in str((oo.const or {}).get("val", "")) for oo in st.ops)) for st in pb.stmts()): is_to = True
+                    if is_to:
+                        te, fe = bool_edges(b.term, c)
+                        tedge = te if c.term.callee.name == "eq" else fe
     if tedge is None: raise AnchorMissing("listen: match on e.kind()")
     arm = cfg.after(tedge, blocked_nodes={acc.bb})
     err_rets = [s for s in ls.stmts() if s.kind == "assign" and s.lhs.l == 0 and s.rv == "agg" and isinstance(s.agg, dict) and s.agg.get("variant") == "Err" and s.bb in arm]
